@@ -4,12 +4,17 @@ def DOMLOOPS(n):
     """sibling walks of the real DOM helpers: <= n-1 children per element (checked by the unwinding assertions)"""
     return {r'^_ZN5QXmpp7Private17firstChildElementERK11QDomElement11QStringView': n, r'^_ZN5QXmpp7Private18nextSiblingElementERK11QDomElement11QStringView': n}
 SM_TUS = ['src/base/QXmppStreamManagement.cpp', 'src/base/QXmppUtils.cpp', 'src/base/QXmppStanza.cpp']
+SASL_TUS = ['src/base/QXmppSasl.cpp', 'src/base/QXmppStreamManagement.cpp', 'src/base/QXmppUtils.cpp', 'src/base/QXmppStanza.cpp']
+SASL = ['sasl_auth', 'sasl_challenge', 'sasl_response', 'sasl_success', 'sasl_failure', 'sasl2_challenge', 'sasl2_response', 'sasl2_failure', 'sasl2_abort', 'sasl2_continue', 'sasl2_success',
+        'sasl2_feature', 'sasl2_authenticate', 'bind2_feature', 'bind2_request', 'bind2_bound', 'fast_feature', 'fast_token_request', 'fast_request']
 MODELS = ['qt_core.c', 'qt_list.c', 'c02_dom.c', 'c02_env.c']
 SPEC = dict(
     property='C02',
     groups=[
         dict(name='sm', harness='h_sm.cpp', tus=SM_TUS, models=MODELS, loop_bounds=DOMLOOPS(5),
              instances=[I(e) for e in ['sm_enable', 'sm_enabled', 'sm_resume', 'sm_resumed', 'sm_ack', 'sm_request', 'sm_failed', 'sm_failed_safe']]),
+        dict(name='sasl', harness='h_sasl.cpp', tus=SASL_TUS, models=MODELS, loop_bounds=DOMLOOPS(8),
+             instances=[I(e) for e in SASL]),
     ],
     bounds=[], assumptions=[], outside=[],
 )
